@@ -55,6 +55,7 @@ def coq_av(e):
     if isinstance(e, int): return '(AInt (%d))' % e
     if 'f' in e: return '(AFloat (%d))' % e['f']
     if 'b' in e: return '(ABool %s)' % ('true' if e['b'] else 'false')
+    if 'nan' in e: return '(AStr "NaN")'
     if 't' in e: return '(ATup [%s])' % '; '.join(coq_av(x) for x in e['t'])
     if 'l' in e: return '(AList [%s])' % '; '.join(coq_av(x) for x in e['l'])
     return '(ADict [%s])' % '; '.join('(%s, %s)' % (coq_str(k), coq_av(v)) for k, v in e['d'])
@@ -67,7 +68,12 @@ def coq_case(case):
         return '(%s, %s)' % (coq_sig(case), coq_call(case))
     if k == 'stack':
         return '([%s], %s, %s, %s)' % ('; '.join(TAG[d] for d in case['decos']), coq_sig(case), 'true' if case['raises'] else 'false', coq_call(case))
-    return '[%s]' % '; '.join('([%s], [%s])' % ('; '.join(coq_av(a) for a in c['args']), '; '.join('(%s, %s)' % (coq_str(k), coq_av(v)) for k, v in c['kw'])) for c in case['calls'])
+    return '([%s], [%s])' % ('; '.join(coq_av(r) for r in ret_pool(case)),
+                             '; '.join('([%s], [%s])' % ('; '.join(coq_av(a) for a in c['args']), '; '.join('(%s, %s)' % (coq_str(k), coq_av(v)) for k, v in c['kw'])) for c in case['calls']))
+
+def ret_pool(case):
+    """what the n-th evaluation of the cached function returns (default: the evaluation count)"""
+    return case['rets'] if 'rets' in case else list(range(1, len(case['calls']) + 1))
 
 # ------------------------------------------------------------------ implementation side
 def impl_setup():
@@ -214,6 +220,7 @@ def dec(e):
     if isinstance(e, dict):
         if 'f' in e: return float(e['f'])
         if 'b' in e: return bool(e['b'])
+        if 'nan' in e: return float('nan')
         if 't' in e: return tuple(dec(x) for x in e['t'])
         if 'l' in e: return [dec(x) for x in e['l']]
         if 'd' in e: return {k: dec(v) for k, v in e['d']}
@@ -222,7 +229,7 @@ def canon_av(x):
     if x is None or isinstance(x, str): return x
     if isinstance(x, bool): return ['b', int(x)]
     if isinstance(x, int): return x
-    if isinstance(x, float): return ['f', int(x)]
+    if isinstance(x, float): return 'NaN' if x != x else ['f', int(x)]
     if isinstance(x, tuple): return ['t'] + [canon_av(y) for y in x]
     if isinstance(x, list): return ['l'] + [canon_av(y) for y in x]
     if isinstance(x, dict): return ['d'] + [[k, canon_av(v)] for k, v in x.items()]
@@ -230,12 +237,14 @@ def canon_av(x):
 
 def impl_cache(case):
     evaluated = []
+    pool = ret_pool(case)
     def g(*args, **kw):
         evaluated.append([[canon_av(x) for x in args], [[k, canon_av(v)] for k, v in kw.items()]])
-        return len(evaluated)
+        n = len(evaluated) - 1
+        return dec(pool[n]) if n < len(pool) else None
     w = D['cache'](g)
     rets = []; viol = None; status = 'ok'
-    seen = []            # (args, kw, first return) per distinct combination as passed
+    seen = []            # (args, kw, first return, index, evaluations) per distinct combination as passed
     for i, c in enumerate(case['calls']):
         a = tuple(dec(x) for x in c['args']); k = {x: dec(y) for x, y in c['kw']}
         before = len(evaluated)
@@ -243,18 +252,22 @@ def impl_cache(case):
             r = w(*a, **k)
         except Exception as e:
             status = err_name(e); rets.append(None); viol = viol or 'cached call %d raised %s' % (i, status); continue
-        rets.append(r)
+        rets.append(canon_av(r))
         a0 = tuple(dec(x) for x in c['args']); k0 = {x: dec(y) for x, y in c['kw']}
         hit = [s for s in seen if s[0] == a0 and s[1] == k0]
+        if hit: hit[0][4] += len(evaluated) - before
         if viol is None:
             if hit:
-                if len(evaluated) != before: viol = 'call %d repeats the combination of call %d but the function was evaluated again' % (i, hit[0][3])
-                elif r != hit[0][2]: viol = 'call %d repeats the combination of call %d but returned %r, not the first result %r' % (i, hit[0][3], r, hit[0][2])
-            else:
-                if len(evaluated) != before + 1:
-                    j = [s for s in seen if s[2] == r]
-                    viol = 'call %d %r %r is a new combination of arguments but the function was not evaluated: the result %r of call %s was returned' % (i, a0, k0, r, j[0][3] if j else '?')
-        if not hit: seen.append((a0, k0, r, i))
+                if len(evaluated) != before:
+                    viol = 'call %d repeats the combination of call %d (which returned %r) but the function was evaluated again: %d evaluations for one combination' % (i, hit[0][3], hit[0][2], hit[0][4])
+                elif not (r is hit[0][2] or canon_av(r) == canon_av(hit[0][2])):
+                    viol = 'call %d repeats the combination of call %d but returned %r, not the first result %r' % (i, hit[0][3], r, hit[0][2])
+            elif len(evaluated) != before + 1:
+                j = [s for s in seen if canon_av(s[2]) == canon_av(r)]
+                viol = 'call %d %r %r is a new combination of arguments but the function was evaluated %d times: the result %r of call %s was returned' % (i, a0, k0, len(evaluated) - before, r, j[0][3] if j else '?')
+        if not hit: seen.append([a0, k0, r, i, len(evaluated) - before])
+    if viol is None and len(evaluated) != len(seen):
+        viol = '%d evaluations for %d distinct combinations of arguments' % (len(evaluated), len(seen))
     return {'status': status, 'obs': [rets, evaluated], 'viol': viol}
 
 def impl(case):
@@ -297,6 +310,8 @@ def is_valid(sig, call):
 AV_POOL = [1, {'f': 1}, {'b': 1}, 2, None, 'a', {'t': [1]}, {'l': [1]}, {'t': []}, {'l': []}, {'d': []}, {'d': [['x', 1]]}, {'t': [{'t': ['x', 1]}]},
            {'l': [{'t': ['x', 1]}]}, {'d': [['x', {'l': [1]}]]}, {'d': [['x', {'t': [1]}]]}, {'l': [{'l': [1]}]}, {'t': [{'l': [1]}]}, {'l': [{'t': [1]}]},
            {'t': [1, 2]}, {'l': [1, 2]}, {'l': [{'f': 1}]}, {'d': [['x', 1], ['y', 2]]}, {'d': [['y', 2], ['x', 1]]}, 0, {'b': 0}, '']
+
+RET_POOL = [None, 0, '', {'l': []}, {'b': 0}, {'nan': 1}, {'t': []}, {'d': []}, {'f': 0}, 1, 'x', {'l': [None]}]
 
 def gen_cases(rng, tier):
     quick = tier == 'quick'
@@ -342,7 +357,13 @@ def gen_cases(rng, tier):
                 c = {'args': [rng.choice(pool) for _ in range(rng.choice([0, 1, 1, 2]))],
                      'kw': [[x, rng.choice(pool)] for x in rng.sample(['k', 'b', 'z'], rng.choice([0, 0, 1, 2]))]}
             calls.append(c)
-        cases.append({'kind': 'cache', 'calls': calls})
+        case = {'kind': 'cache', 'calls': calls}
+        if rng.random() < 0.7:          # what the evaluations return: falsy / None / NaN values must be cached like any other
+            case['rets'] = [rng.choice(RET_POOL) for _ in calls]
+        cases.append(case)
+    for r0 in RET_POOL:                 # f returns r0 once, the same call repeated three times
+        for c0 in ({'args': [], 'kw': []}, {'args': [1], 'kw': []}, {'args': [{'l': [1]}], 'kw': [['k', None]]}):
+            cases.append({'kind': 'cache', 'calls': [c0, c0, c0], 'rets': [r0, 5, 6]})
     for x, y in itertools.permutations(AV_POOL[:19], 2):      # every ordered pair of the small pool as a two-call history
         cases.append({'kind': 'cache', 'calls': [{'args': [x], 'kw': []}, {'args': [y], 'kw': []}]})
     return cases
